@@ -13,6 +13,8 @@ LEVEL = 'exploration'
 BUDGET = {'quick': 60, 'thorough': 600}
 # deterministic sub-checks repeated in a `python -O` child (core.optimized_child)
 OPT_SUBS = ('sweep#16',)
+# documented call interface the generated calls rely on (vcheck/callstyle.py)
+INTERFACE = [('oslo_utils.imageutils.format_inspector', None)]
 KI = 1024
 MI = 1024 * 1024
 BOUND = {'vmdk': 3 * MI // 2}
